@@ -208,7 +208,7 @@ func (rw *Rewriter) Visit(node sql.Node) (w sql.Visitor, n sql.Node, err error) 
 				if !ok {
 					break
 				}
-				n, err := strconv.Atoi(lit.Value)
+				n, err := atoi(lit.Value)
 				if err != nil {
 					break
 				}
@@ -291,4 +291,14 @@ func julianDay(t time.Time) float64 {
 		float64(day) + float64(B) - 1524.5 + fractionalDay
 
 	return jd
+}
+
+// atoi parses an SQLite integer literal, which is decimal or, with the
+// prefix 0x, hexadecimal.
+func atoi(s string) (int, error) {
+	if len(s) > 2 && (s[:2] == "0x" || s[:2] == "0X") {
+		n, err := strconv.ParseInt(s[2:], 16, 64)
+		return int(n), err
+	}
+	return strconv.Atoi(s)
 }
